@@ -273,6 +273,14 @@ func runC12(r *rep.R) {
 			do(c12Case{Prefs: []int{p}, Adv: 0xF, Wildcard: wc, Announce: &c12Universe[p]})
 		}
 	}
+	// part B'': a wildcard payload after an earlier (successful or failed) establishment on the same connection
+	for _, p := range []int{0, 1, 2} {
+		for wc := 1; wc < 8; wc++ {
+			for _, f := range [][]int{{p}, {1}, {0, 1}} {
+				do(c12Case{Prefs: []int{p}, Adv: 0xF, Wildcard: wc, First: f})
+			}
+		}
+	}
 	// part C: a session was opened (and closed) on the same connection before, with
 	// other preferences: the choice must not depend on it
 	firsts := [][]int{{-1}, {0, 1}, {1, 0}, {2, 1}, {1}, {3, 1}}
